@@ -88,7 +88,7 @@ C_MUTANTS = [
     ("one", "OneTerminal", False, "C19_AtMostOneTerminal"),
     ("one", "SkipOldCalls", False, "C19_NoReplay"),
     ("one", "StampCall", False, "C19_Stamped"),
-    ("ctx", "CallerCtx", False, "C19_CallerCtx", dict(KeyByCtx=False))  # (definition and caller contexts differ only with a name-keyed table),
+    ("ctx", "CallerCtx", False, "C19_CallerCtx", dict(KeyByCtx=False)),  # (definition and caller contexts differ only with a name-keyed table)
     ("one", "LatestWins", False, "C19_LatestValidDefinition"),
     ("fixed", "KeyByCtx", False, "C19_LatestValidDefinition"),      # named deviation of the code
 ]
